@@ -20,14 +20,17 @@ func init() {
 		Technique: "switch-case census against the datatype tables, provenance of the produced AVP's fields, guard identification for the M/V flag composition",
 		Explanation: "Decides on the current source: R1 the switch over the dictionary data type in marshal has a case for every value of datatype.Available, and each scalar case's reflect target type T has T.Type() equal to the case constant (so every type a dictionary can declare can be marshalled, into the type consumers expect); " +
 			"R2 the AVP built by marshal takes Code and VendorID from the dictionary AVP found for the tag, and its Flags are composed only of Mbit — on the edge where the dictionary's Must contains \"M\" — and Vbit — on the edge VendorID > 0; " +
-			"R3 Marshal replaces m.AVP and then recomputes Header.MessageLength from m.Len(). " +
+			"R3 Marshal replaces m.AVP and then recomputes Header.MessageLength from m.Len(); " +
+			"R4 the struct scanner builds its field index from, and recurses into embedded structs with, its own complete AVP list; R5 for pointer and interface fields 'empty' is exactly IsNil(). " +
 			"NOT decided (not applicable to static analysis): that Unmarshal∘Marshal is the identity over field shapes and values — reflection-driven, value-level behaviour that only execution can settle; parseAvpTag's string handling.",
 		Rules: map[string]string{
 			"R1": "marshal's type switch is exhaustive over datatype.Available and each case targets the type whose Type() is the case constant",
 			"R2": "produced AVP: Code/VendorID from the dictionary AVP; Flags = Mbit (Must contains M) | Vbit (VendorID > 0) only",
 			"R3": "Marshal: MessageLength = m.Len() after m.AVP is replaced",
+			"R4": "Unmarshal scans every struct level (embedded structs included) against the complete AVP list of that level",
+			"R5": "omitempty: a pointer / interface field is empty exactly when it is nil",
 		},
-		MinInstances: map[string]int{"R1": 18, "R2": 3, "R3": 1},
+		MinInstances: map[string]int{"R1": 18, "R2": 3, "R3": 1, "R4": 1, "R5": 1},
 		Assumptions:  []string{"reflect.New(t)/Set/Convert produce a value of type t (package reflect contract)"},
 	})
 }
@@ -195,6 +198,8 @@ func runC18(c *Ctx) {
 		}
 	}
 
+	c.c18Unmarshal()
+
 	// ---- R3 ----
 	if mm := c.P.Method("diam", "Message", "Marshal"); mm != nil {
 		var avpStore, lenStore *ssa.Store
@@ -223,6 +228,124 @@ func runC18(c *Ctx) {
 	}
 }
 
+// c18Unmarshal: structural clauses of the unmarshal direction (R4) and of omitempty (R5).
+func (c *Ctx) c18Unmarshal() {
+	r := c.R
+	// scanStruct by role: the function that builds an index of its []*AVP parameter and scans struct fields
+	for _, f := range c.P.LibraryFuncs() {
+		if pkgOf(f).Path() != pkgDiam {
+			continue
+		}
+		var avps *ssa.Parameter
+		for _, p := range f.Params {
+			if sl, ok := p.Type().Underlying().(*types.Slice); ok {
+				if pt, ok := sl.Elem().(*types.Pointer); ok && flow.TypeIs(pt.Elem(), pkgDiam, "AVP") {
+					avps = p
+				}
+			}
+		}
+		if avps == nil {
+			continue
+		}
+		var idxCall *ssa.Call
+		var selfCalls []*ssa.Call
+		for _, ci := range flow.CallInstrs(f) {
+			call, ok := ci.(*ssa.Call)
+			if !ok {
+				continue
+			}
+			g := flow.StaticCallee(call)
+			if g == nil {
+				continue
+			}
+			if g == f {
+				selfCalls = append(selfCalls, call)
+			}
+			if g.Signature.Results().Len() == 1 {
+				if _, ok := g.Signature.Results().At(0).Type().Underlying().(*types.Map); ok {
+					idxCall = call
+				}
+			}
+		}
+		if idxCall == nil || len(selfCalls) == 0 {
+			continue
+		}
+		key := fname(f) + ":scans-complete-avp-list"
+		good := len(idxCall.Call.Args) == 1 && idxCall.Call.Args[0] == ssa.Value(avps)
+		why := "the field index is not built from the complete AVP list the function was given"
+		ai := paramIndex(f, avps)
+		for _, sc := range selfCalls {
+			if sc.Call.Args[ai] != ssa.Value(avps) {
+				good = false
+				why = "the recursion into an embedded struct does not receive the complete AVP list of the enclosing level (its fields come back empty when another field was looked up before)"
+			}
+		}
+		r.Check(good, "R4", key, c.fpos(f), "index built from, and embedded structs scanned with, the function's own complete AVP list", why)
+	}
+	// isEmptyValue by role: func(reflect.Value) bool switching on Kind()
+	for _, f := range c.P.LibraryFuncs() {
+		if pkgOf(f).Path() != pkgDiam || len(f.Params) != 1 || !flow.TypeIs(f.Params[0].Type(), "reflect", "Value") || f.Signature.Results().Len() != 1 {
+			continue
+		}
+		if b, ok := f.Signature.Results().At(0).Type().Underlying().(*types.Basic); !ok || b.Kind() != types.Bool {
+			continue
+		}
+		var kind ssa.Value
+		for _, ci := range flow.CallInstrs(f) {
+			if flow.IsCallTo(ci, "reflect", "Value", "Kind") {
+				kind = ci.Value()
+			}
+		}
+		if kind == nil {
+			continue
+		}
+		key := fname(f) + ":pointer-empty-iff-nil"
+		// the block for Kind == Ptr (22) / Interface (20)
+		good, found := true, false
+		why := ""
+		for _, b := range f.Blocks {
+			ifi, ok := b.Instrs[len(b.Instrs)-1].(*ssa.If)
+			if !ok {
+				continue
+			}
+			bo, ok := ifi.Cond.(*ssa.BinOp)
+			if !ok || bo.Op != token.EQL || bo.X != kind {
+				continue
+			}
+			k, ok := flow.ConstInt(bo.Y)
+			if !ok || (k != 22 && k != 20) {
+				continue
+			}
+			found = true
+			// returns reachable from the case body
+			body := b.Succs[0]
+			seen := map[*ssa.BasicBlock]bool{}
+			var visit func(x *ssa.BasicBlock)
+			visit = func(x *ssa.BasicBlock) {
+				if seen[x] {
+					return
+				}
+				seen[x] = true
+				if ret, ok := x.Instrs[len(x.Instrs)-1].(*ssa.Return); ok {
+					call, isCall := ret.Results[0].(*ssa.Call)
+					if !isCall || !flow.IsCallTo(call, "reflect", "Value", "IsNil") {
+						good = false
+						why = "for pointer / interface fields emptiness is not exactly IsNil(): a non-nil pointer to a zero value is dropped by omitempty and comes back as nil"
+					}
+					return
+				}
+				for _, s := range x.Succs {
+					visit(s)
+				}
+			}
+			visit(body)
+		}
+		if found {
+			r.Check(good, "R5", key, c.fpos(f), "Kind Ptr/Interface: empty iff IsNil()", why)
+		}
+	}
+}
+
 func usesReflectTypeOf(f *ssa.Function) bool {
 	for _, ci := range flow.CallInstrs(f) {
 		if flow.IsCallTo(ci, "reflect", "", "TypeOf") {
@@ -242,6 +365,7 @@ func (c *Ctx) c18Flags(f *ssa.Function, v ssa.Value, dictParam *ssa.Parameter) (
 	var cons []contrib
 	seen := map[ssa.Value]bool{}
 	okShape := true
+	var helperFor *ssa.Parameter
 	var walk func(v ssa.Value, at ssa.Instruction)
 	walk = func(v ssa.Value, at ssa.Instruction) {
 		if seen[v] {
@@ -265,11 +389,39 @@ func (c *Ctx) c18Flags(f *ssa.Function, v ssa.Value, dictParam *ssa.Parameter) (
 			walk(x.Y, x)
 		case *ssa.Convert:
 			walk(x.X, at)
+		case *ssa.Call:
+			// a helper computing the flags from the dictionary AVP: analyse its body with the parameter mapped
+			g := flow.StaticCallee(x)
+			if g == nil || g.Blocks == nil || helperFor != nil {
+				okShape = false
+				return
+			}
+			for i, a := range x.Call.Args {
+				if flow.Peel(a) == ssa.Value(dictParam) && i < len(g.Params) {
+					helperFor = g.Params[i]
+				}
+			}
+			if helperFor == nil {
+				okShape = false
+				return
+			}
+			for _, rv := range flow.ReturnValues(g, 0) {
+				var retAt ssa.Instruction
+				flow.Instrs(g, func(in ssa.Instruction) {
+					if ret, ok := in.(*ssa.Return); ok && len(ret.Results) > 0 && (ret.Results[0] == rv || retAt == nil) {
+						retAt = ret
+					}
+				})
+				walk(rv, retAt)
+			}
 		default:
 			okShape = false
 		}
 	}
 	walk(v, nil)
+	if helperFor != nil {
+		dictParam = helperFor
+	}
 	if !okShape {
 		return false, "the produced AVP's flags are not composed of constants by | and selection only"
 	}
